@@ -75,6 +75,8 @@ SCHED_FIELD_ALIAS = {
     'permutation::VerifyingKey.commitments': 'permutation::Argument.columns',
     'permutation::ProvingKey.polys': 'permutation::Argument.columns',
     'permutation::ProvingKey.permutations': 'permutation::Argument.columns',
+    # Msm keeps parallel vectors (Msm::new asserts bases.len() == scalars.len())
+    'msm::Msm.scalars': 'msm::Msm.bases',
 }
 SCHED_COUNT_ALIAS = {
     # documented invariant of ConstraintSystem: "Should have same length as num_advice_columns / num_challenges"
@@ -85,6 +87,8 @@ SCHED_PASSTHROUGH = {'midnight_proofs::poly::batch_invert_rational'}
 SCHED_DOM_EQUIV = {
     # h(X) is truncated to (n-1)*get_quotient_poly_degree() coefficients and cut by chunks_exact(n-1)
     'chunks(call(EvaluationDomain::extended_to_coeff))': 'call(EvaluationDomain::get_quotient_poly_degree)',
+    # ipa_prove asserts scalars.len() == bases1.len() == bases2.len() at entry; the verifier has no scalars
+    'param:scalars': 'param:bases1',
 }
 
 
